@@ -28,7 +28,7 @@ WG_ALPHABET = '.@$#^v<>x'
 
 
 def bounds(tier):
-    return dict(gridworld_layouts='all layouts over ".sg#x" with a start cell: 1x1..1x4, 2x1..4x1, 2x2 (quick); up to 6 cells (thorough)',
+    return dict(gridworld_layouts='all layouts over ".sg#x" with a start cell: 1x1..1x4, 2x1..4x1, 2x2 (quick); also 1x5, 5x1 and, over ".sg#", 3x2 and 2x3 (thorough)',
                 windy_layouts='all layouts over ".@$#^v<>x" with a start cell up to 3 cells (quick) / 4 cells (thorough) + menu',
                 larger_menu=True, loadunload_nstates='2..5', heavenorhell_grids='default + menu')
 
@@ -38,7 +38,9 @@ def gw_layouts(tier):
     if tier != 'quick':
         shapes += [(5, 1), (1, 5), (3, 2), (2, 3)]
     for w, h in shapes:
-        for cells in itertools.product(GW_ALPHABET, repeat=w * h):
+        # (six-cell grids: without the 'x' feature, which behaves like 'g' with another reward - 3367 instead of 11529 layouts each)
+        alphabet = GW_ALPHABET if w * h <= 5 else [c for c in GW_ALPHABET if c != 'x']
+        for cells in itertools.product(alphabet, repeat=w * h):
             if 's' not in cells:
                 continue
             yield [''.join(cells[r * w:(r + 1) * w]) for r in range(h)]
@@ -140,6 +142,9 @@ def gridworld_plan(sx, layout, spsel):
         with sx.must_not_raise('plan'):
             res = ValueIteration(max_iterations=3, max_residual=sx.const(F(1, 1000))).plan_on(gw)
         sx.prove(len(list(res.state_value.keys())) == len(gw.state_list), 'plan-covers-state-list')
+
+
+WG_MENU = [['....$', 'x^x<<', '.^x<<', '@....'], ['@.$>'], ['>@<', '^$v'], ['@>>$'], ['v@', '$^']]
 
 
 def wg_layouts(tier):
@@ -299,7 +304,7 @@ def jobs(tier):
     for lay in wg_layouts(tier):
         k += 1
         yield ('windy', dict(layout=lay), dict(o, twin=1 if k % 25 == 0 else 0))
-        if k % 15 == 0 or len(''.join(lay)) >= 4:
+        if k % 15 == 0 or lay in WG_MENU:
             for wsel in range(3):
                 yield ('windy_plan', dict(layout=lay, wsel=wsel), dict(o, twin=0))
     yield ('windy', dict(layout=['@.$'], default_rewards=True), o)
